@@ -67,6 +67,37 @@ Qed.
 
 (* [wapp_wire] in one piece, outside the corner "a positive length declared,
    nothing at all written" (where the head is built after the decision to close) *)
+Lemma wapp_wire_u_gen status hs ws kind chunks hc :
+  r_error r = None ->
+  (no_handover kind ws \/
+   forall t1, start_response lower (new_task (r_version r) false) (PStr status) hs None = (t1, Ok tt) ->
+              has_body t1 = false) ->
+  (forall t1, start_response lower (new_task (r_version r) false) (PStr status) hs None = (t1, Ok tt) ->
+              len1 kind && match t_clen t1 with None => true | Some _ => false end = false) ->
+  let res := channel_service cap lower c r (wapp status hs ws kind chunks hc) None in
+  o_raw res = None ->
+  exists t1, start_response lower (new_task (r_version r) false) (PStr status) hs None = (t1, Ok tt) /\
+    let ds := ws ++ eff kind chunks in
+    ((ds = [] -> toofew r t1 = false) ->
+     exists tp head, build_response_header cap lower c r t1 = (tp, Ok head)
+       /\ wire (o_writes res) = head ++ snd (ws_sem (set_wrote true tp) ds)
+                                ++ (if t_chunked tp && negb (r_head r) then chunk_terminator else [])
+       /\ o_close res = t_cof tp || toofew r (fst (ws_sem (set_wrote true tp) ds))
+       /\ o_next res = negb (t_cof tp || toofew r (fst (ws_sem (set_wrote true tp) ds)))
+       /\ o_handover res = false /\ o_closes res = (if hc then 1 else 0)%nat).
+Proof.
+  intros He Hnh Hl1. cbn zeta. intro Hraw.
+  destruct (wapp_wire_gen cap lower c r status hs ws kind chunks hc He Hnh Hl1 Hraw) as (t1 & Esr & H0 & H1 & Hho & Hcs).
+  exists t1. split; [exact Esr|]. intro Htf.
+  destruct (ws ++ eff kind chunks) as [|d ds] eqn:Eds.
+  - destruct (H0 eq_refl) as (tp & head & Eb & Ew & Ec & En).
+    rewrite toofew_adj_spec, (Htf eq_refl) in Eb.
+    destruct (brh_ok _ _ _ Eb) as [Etp _].
+    assert (T : toofew r (set_wrote true tp) = false) by (rewrite Etp, toofew_prepared; auto).
+    exists tp, head. split; [exact Eb|]. cbn [ws_sem fst snd List.app]. rewrite T, orb_false_r. repeat split; auto.
+  - destruct H1 as (tp & head & Eb & Ew & Ec & En); [discriminate|]. exists tp, head. repeat split; auto.
+Qed.
+
 Lemma wapp_wire_u status hs ws kind chunks hc :
   r_error r = None ->
   no_handover kind ws ->
@@ -84,15 +115,9 @@ Lemma wapp_wire_u status hs ws kind chunks hc :
        /\ o_next res = negb (t_cof tp || toofew r (fst (ws_sem (set_wrote true tp) ds)))).
 Proof.
   intros He Hnh Hl1. cbn zeta. intro Hraw.
-  destruct (wapp_wire cap lower c r status hs ws kind chunks hc He Hnh Hl1 Hraw) as (t1 & Esr & H0 & H1).
+  destruct (wapp_wire_u_gen status hs ws kind chunks hc He (or_introl Hnh) Hl1 Hraw) as (t1 & Esr & U).
   exists t1. split; [exact Esr|]. intro Htf.
-  destruct (ws ++ eff kind chunks) as [|d ds] eqn:Eds.
-  - destruct (H0 eq_refl) as (tp & head & Eb & Ew & Ec & En).
-    rewrite toofew_adj_spec, (Htf eq_refl) in Eb.
-    destruct (brh_ok _ _ _ Eb) as [Etp _].
-    assert (T : toofew r (set_wrote true tp) = false) by (rewrite Etp, toofew_prepared; auto).
-    exists tp, head. split; [exact Eb|]. cbn [ws_sem fst snd List.app]. rewrite T, orb_false_r. auto.
-  - apply H1. discriminate.
+  destruct (U Htf) as (tp & head & Eb & Ew & Ec & En & _). exists tp, head. auto.
 Qed.
 
 (* ---- what start_response leaves behind --------------------------------------- *)
@@ -248,8 +273,8 @@ Qed.
    writes or yields is dropped; the head carries neither Transfer-Encoding nor
    Content-Length, announces "Connection: close", the client (HEAD or not) reads
    the head and nothing is left over, and the connection is closed. *)
-Theorem frame_nobody_w status hs ws kind chunks hc :
-  r_error r = None -> no_handover kind ws -> len1 kind = false -> Forall (not_cl lower) hs ->
+Theorem frame_nobody_any status hs ws kind chunks hc :
+  r_error r = None -> len1 kind = false -> Forall (not_cl lower) hs ->
   plain_fields cap (strs_of hs) ->
   no_body_st status = true ->
   let res := channel_service cap lower c r (wapp status hs ws kind chunks hc) None in
@@ -259,13 +284,16 @@ Theorem frame_nobody_w status hs ws kind chunks hc :
     /\ (forall h, In h (strs_of hs) -> In (client_field (norm_field cap h)) fields)
     /\ In (client_field f_close) fields
     /\ filter (field_is te_name) fields = [] /\ filter (field_is cl_name) fields = []
-    /\ o_close res = true /\ o_next res = false.
+    /\ o_close res = true /\ o_next res = false
+    /\ o_handover res = false /\ o_closes res = (if hc then 1 else 0)%nat.
 Proof.
-  intros He Hnh Hl Hcl Hpl Hst. cbn zeta. intro Hraw.
-  destruct (wapp_wire_u status hs ws kind chunks hc He Hnh) with (2 := Hraw) as (t1 & Esr & U).
+  intros He Hl Hcl Hpl Hst. cbn zeta. intro Hraw.
+  destruct (wapp_wire_u_gen status hs ws kind chunks hc He) with (3 := Hraw) as (t1 & Esr & U).
+  { right. intros t1 Esr. destruct (start_response_ok lower _ _ _ _ _ Esr) as (_ & S2 & _).
+    cbn [str_of] in S2. rewrite (has_body_status t1 status S2), Hst. reflexivity. }
   { intros t1 _. rewrite Hl. reflexivity. }
   destruct (nolen_start_facts status hs t1 Esr Hcl) as (Hclean1 & S2 & S3 & S4 & S5 & S6 & S7 & S8 & S9 & Hclen).
-  cbn zeta in U. destruct U as (tp & head & Eb & Ew & Ec & En).
+  cbn zeta in U. destruct U as (tp & head & Eb & Ew & Ec & En & Eho & Ecs).
   { intros _. unfold toofew. rewrite Hclen. reflexivity. }
   destruct (brh_ok _ _ _ Eb) as [Etp Ehead].
   rewrite <- S3 in Hpl.
